@@ -204,6 +204,10 @@ func racePass(r *ev.Run) {
 		res = "DATA RACE reported"
 		i := strings.Index(string(out), "WARNING: DATA RACE")
 		r.Violation("race-detector-report", "the race detector reports a data race in concurrent Resolve/Targets:\n"+string(out[i:min(len(out), i+1500)]), nil)
+	} else if strings.Contains(string(out), "fatal error: concurrent map") {
+		res = "concurrent map access"
+		i := strings.Index(string(out), "fatal error: concurrent map")
+		r.Violation("race-detector-report", "concurrent Resolve/Targets crash the process:\n"+string(out[i:min(len(out), i+1500)]), nil)
 	} else if err != nil {
 		res = "could not run: " + err.Error()
 	}
